@@ -66,6 +66,13 @@ fn run_scripts(inp: &str, out: &str) {
             if v["probes"]["crash"].is_object() {
                 probes.extend(probe::crash_probes(&fs, &dirkey, &cfg, &v["probes"]["crash"], v["seed"].as_u64().unwrap_or(id)));
             }
+            let last_seq = evs.last().and_then(|e| e["seq"].as_u64()).unwrap_or(0);
+            if v["probes"]["tail"].is_object() {
+                probes.extend(probe::tail_probes(&fs, &dirkey, &cfg, &v["probes"]["tail"], v["seed"].as_u64().unwrap_or(id), last_seq));
+            }
+            if v["probes"]["damage"].is_object() {
+                probes.extend(probe::damage_probes(&fs, &dirkey, &cfg, &v["probes"]["damage"], v["seed"].as_u64().unwrap_or(id), last_seq));
+            }
             // let the probes' workers finish before the next run starts
             std::thread::sleep(std::time::Duration::from_millis(2));
             let mut s = shim::shim();
@@ -108,6 +115,36 @@ fn main() {
             .unwrap();
         h.join().unwrap();
         // abandoned workers may still be parked; leave without waiting for them
+        std::process::exit(0);
+    }
+    if args.len() >= 4 && args[1] == "lockchild" {
+        // a contender in its own process: try to take the directory, report, hold until told to drop
+        std::panic::set_hook(Box::new(|_| {}));
+        let cfg = session::Cfg::default().config(&args[2]);
+        let config = std::sync::Arc::new(cfg);
+        let held: Result<Box<dyn std::any::Any>, String> = if args[3] == "dump" {
+            match std::panic::catch_unwind(|| raft_log::Dump::<types::VT>::new(config)) {
+                Ok(Ok(d)) => Ok(Box::new(d)),
+                Ok(Err(e)) => Err(util::err_class(&e)),
+                Err(_) => Err("panic:child".into()),
+            }
+        } else {
+            match std::panic::catch_unwind(|| raft_log::RaftLog::<types::VT>::open(config)) {
+                Ok(Ok(d)) => Ok(Box::new(d)),
+                Ok(Err(e)) => Err(util::err_class(&e)),
+                Err(_) => Err("panic:child".into()),
+            }
+        };
+        match &held {
+            Ok(_) => println!("ok"),
+            Err(e) => println!("{}", e),
+        }
+        let _ = std::io::stdout().flush();
+        if held.is_ok() {
+            let mut line = String::new();
+            let _ = std::io::stdin().read_line(&mut line);
+        }
+        drop(held);
         std::process::exit(0);
     }
     eprintln!("usage: rlh run <scripts.ndjson> <trace.ndjson>");
